@@ -181,6 +181,7 @@ func (s *Server) Exit(ctx context.Context) error {
 
 func (s *Server) DidOpen(ctx context.Context, params *protocol.DidOpenTextDocumentParams) error {
 	s.documents.Store(params.TextDocument.URI, params.TextDocument.Text)
+	s.payeeTemplatesCache.Clear()
 	if s.workspace != nil {
 		if path := uriToPath(params.TextDocument.URI); path != "" {
 			s.workspace.UpdateFile(path, params.TextDocument.Text)
@@ -205,6 +206,8 @@ func (s *Server) DidChange(ctx context.Context, params *protocol.DidChangeTextDo
 			}
 		}
 		s.documents.Store(params.TextDocument.URI, content)
+		// templates are collected over the whole tree: any edit outdates them
+		s.payeeTemplatesCache.Clear()
 		if s.workspace != nil {
 			if path := uriToPath(params.TextDocument.URI); path != "" {
 				s.workspace.UpdateFile(path, content)
@@ -224,6 +227,7 @@ func isFullChange(r protocol.Range) bool {
 func (s *Server) DidClose(ctx context.Context, params *protocol.DidCloseTextDocumentParams) error {
 	s.documents.Delete(params.TextDocument.URI)
 	tokenCache.delete(params.TextDocument.URI)
+	s.payeeTemplatesCache.Clear()
 	// The buffer is gone: the workspace goes back to what is on disk.
 	if s.workspace != nil {
 		if path := uriToPath(params.TextDocument.URI); path != "" {
@@ -237,7 +241,7 @@ func (s *Server) DidClose(ctx context.Context, params *protocol.DidCloseTextDocu
 }
 
 func (s *Server) DidSave(ctx context.Context, params *protocol.DidSaveTextDocumentParams) error {
-	s.payeeTemplatesCache.Delete(params.TextDocument.URI)
+	s.payeeTemplatesCache.Clear()
 
 	path := uriToPath(params.TextDocument.URI)
 	if path == "" {
@@ -310,6 +314,7 @@ func (s *Server) publishDiagnostics(ctx context.Context, docURI protocol.Documen
 		return
 	}
 	s.resolved.Store(docURI, resolved)
+	s.payeeTemplatesCache.Delete(docURI)
 	_ = s.client.PublishDiagnostics(ctx, &protocol.PublishDiagnosticsParams{
 		URI:         docURI,
 		Diagnostics: diagnostics,
